@@ -83,9 +83,7 @@ theorem LInv.cnCore {s : St} (hs : LInv s) (e0 : Nat) (p : Pt) (d : Nat) (b_0 : 
   · intro x hx
     simp only [List.mem_cons, List.not_mem_nil, or_false] at hx ⊢
     subst hx; simp [*]
-  · intro x hx
-    
-    exact absurd hx (by simp)
+  · intro x hx; exact absurd hx (by simp)
   · intro i hi hT
     simp only [List.mem_cons, List.not_mem_nil, or_false, not_or] at hT
     have hin : ∀ k, i ≠ s.nE + k := by intro k; omega
